@@ -75,10 +75,14 @@ class Action:
 
         old_to_new_parameter_names: the mapping between the old and new parameter names.
         """
-        ordered_old_signature = list(self.signature.keys())
-        for old_param_name in ordered_old_signature:
-            new_param_name = old_to_new_parameter_names[old_param_name]
-            self.signature[new_param_name] = self.signature.pop(old_param_name)
+        # rename all parameters at once: renaming them one by one collapses maps whose new names
+        # overlap the old ones (e.g. a swap).
+        renamed_signature = {
+            old_to_new_parameter_names[old_param_name]: param_type
+            for old_param_name, param_type in self.signature.items()
+        }
+        self.signature.clear()
+        self.signature.update(renamed_signature)
 
         self.preconditions.change_signature(old_to_new_parameter_names)
         for effect in self.discrete_effects:
